@@ -1,4 +1,5 @@
 """C07 — failures and panics are contained in their iteration and classified correctly."""
+from ..core import hx
 from . import _scn
 ID = "C07"
 PROPS = ["F1Verif.Props.C07", "F1Verif.Props.FactsC07"]
@@ -21,6 +22,15 @@ def corpus():
         "scn 4 _/WN.L1|WPr.L2|WF.L3|_ -",
         "pool.handles 2 1",          # two pools of one manager (file stages): a failure must stay on its own handle
         "pool.handles 3 2",
+        # whole runs and whole command lines: every kind of failure stays in its iteration, the process survives —
+        # also through a combined scenario, and also when the scenario log file cannot be opened
+        "run prop=C07 mode=users conc=2 dur=300 body=1 maxit=24 failevery=3 failkind=panicerr combine=1",
+        "run prop=C07 mode=users conc=2 dur=300 body=1 maxit=24 failevery=2 failkind=nilmap combine=1",
+        "run prop=C07 mode=constant rate=6/50ms dur=300 conc=3 body=2 failevery=4 failkind=timefail",
+        "cli mode=users dur=%s conc=2 bodyms=5 failevery=2 failkind=panicerr logfile=bad" % hx("200ms"),
+        "cli mode=users dur=%s conc=2 bodyms=5 failevery=3 failkind=errorf logfile=bad" % hx("200ms"),
+        "cli mode=users dur=%s conc=1 bodyms=2 maxit=8 failevery=2 failkind=nilmap combine=1 expectlimit=1" % hx("300ms"),
+        "cli mode=constant dur=%s conc=2 rate=%s dist=%s failevery=3 failkind=panicstr logfile=good" % (hx("200ms"), hx("5/50ms"), hx("none")),
     ]
 
 
@@ -42,7 +52,26 @@ def generate(rng, tier):
                     b += ".L%d" % rng.randint(0, 9)
             bodies.append(b)
         out.append("scn %d _/%s %s" % (rng.choice([nb, nb, 2 * nb, nb + 1]), "|".join(bodies), _scn.cleanups(rng, ncl, 0.3)))
+    kinds = ["failnow", "panicerr", "panicstr", "nilmap", "errorf", "timefail", "timeerr"]
+    for _ in range({"quick": 6, "thorough": 60, "search": 16}[tier]):
+        if rng.random() < 0.5:
+            out.append("run prop=C07 mode=%s dur=300 conc=%d body=%d maxit=%d failevery=%d failkind=%s%s" % (
+                rng.choice(["users", "constant rate=6/50ms"]), rng.choice([1, 3]), rng.choice([0, 3]), rng.randint(8, 40), rng.choice([2, 3, 5]),
+                rng.choice(kinds), rng.choice(["", " combine=1"])))
+        else:
+            out.append("cli mode=users dur=%s conc=%d bodyms=%d maxit=%d failevery=%d failkind=%s%s%s" % (
+                hx("300ms"), rng.choice([1, 2]), rng.choice([1, 4]), rng.randint(6, 20), rng.choice([2, 3]), rng.choice(kinds),
+                rng.choice(["", " combine=1"]), rng.choice(["", " logfile=bad", " logfile=good"])))
     return out
+
+
+def compare(rec):
+    if rec["case"].startswith("cli "):
+        from . import _plan
+        return _plan.cli_compare(rec)
+    if rec["model"] == "-":
+        return None
+    return None if rec["impl"] == rec["model"] else "model=%s impl=%s" % (rec["model"], rec["impl"])
 
 
 def nontrivial_key(rec):
